@@ -131,6 +131,27 @@ func (c *Client) debug(r io.Reader) io.Reader {
 	return io.TeeReader(r, os.Stdout)
 }
 
+// go-json compiles a decoder the first time it meets a type and, outside
+// -race builds, publishes it in its cache without synchronisation. When
+// shovel starts, every task decodes its first response of the same type at
+// the same moment, and a reader can observe a half-written cache entry: the
+// process dies with a nil pointer dereference inside go-json. Compiling the
+// decoders of all response types here, before any goroutine exists, makes
+// every later lookup a read of a complete entry.
+func init() {
+	for _, dst := range []any{
+		&headerResp{},
+		&[]headerResp{},
+		&[]blockResp{},
+		&[]receiptResp{},
+		&logResp{},
+		&traceBlockResp{},
+		&[]any{},
+	} {
+		json.Unmarshal([]byte("null"), dst)
+	}
+}
+
 type request struct {
 	ID      string `json:"id"`
 	Version string `json:"jsonrpc"`
